@@ -11,7 +11,7 @@ GoTypes == {"string", "*int", "[]uint8", "bool", "float64", "[]string", "*[]stri
             "named-int", "*named-string", "named-strings", "*[]uint8", "*time.Time", "*bool", "*string"}   \* user-defined types whose underlying type is supported
 JsonTags == {"a", "b", "", "id", "~"}   \* "~": json:"" (the key is there, the name is empty)
 ApiTags == {"", "attr", "rel", "rel,", "rel,tt", "rel,tt,inv", "rel,a,b,c", "other", "rel,,inv", "attr,omitempty"}
-IdVariants == {"ok", "noapi", "absent", "int", "jsonother", "nojson"}
+IdVariants == {"ok", "noapi", "absent", "int", "jsonother", "nojson", "last", "named"}
 F(g, j, a) == [gotype |-> g, json |-> j, api |-> a]
 FieldSpecs == { F(g, j, a) : g \in GoTypes, j \in JsonTags, a \in ApiTags }
 
